@@ -439,6 +439,7 @@ class StmtMixin:
 
     def ex_With(self, node, st):
         # in the subset: `with warnings.catch_warnings():` and `with <file object>:` (no `as`): executed as the body
+        files = []
         for item in node.items:
             e = item.context_expr
             if isinstance(e, ast.Call) and isinstance(e.func, ast.Attribute) and e.func.attr == 'catch_warnings':
@@ -447,12 +448,11 @@ class StmtMixin:
                 st, v = self.ev1(e, st)
                 if isinstance(v, VObj) and v.classes == ('TextIO',):
                     self.assumptions.add("`with <file>:` runs its body and then only closes the file")
+                    files.append(v.t)
                     continue
             raise Unsupported("with statement other than warnings.catch_warnings() / an open file")
-        files = tuple(v.t for item in node.items if item.optional_vars is None
-                      for v in [self.ev1(item.context_expr, st)[1]] if isinstance(v, VObj) and v.classes == ('TextIO',))
         before = st.notes.get('with_files', ())
-        st.notes['with_files'] = before + files          # the files whose `with` block is being executed (contract text may ask which)
+        st.notes['with_files'] = before + tuple(files)          # the files whose `with` block is being executed (contract text may ask which)
         for s2, flow in self.exec_block(node.body, st):
             s2.notes['with_files'] = before
             yield s2, flow
